@@ -260,6 +260,11 @@ def run(ctx):
         # host base + the TARGET's offset (seed C04-9 put it at offset 0)
         tgt = adef.mk_block("Tgt", [adef.mk_register("Ia", 1, 8, fs()), adef.mk_command("Ic", 2, basic=True)], address_offset=1000 + 8 * k,
                             repeat={"count": 2, "stride": 16} if k % 3 == 0 else None)
+        # register / command refs with their OWN repeat to a target that is repeated differently (seed C09-5: the target's won)
+        objs += [adef.mk_command("Crep", 300, basic=False, repeat={"count": 3, "stride": 2}),
+                 adef.mk_ref("Crr", "Crep", {"kind": "command", "address": 400, "repeat": {"count": 2, "stride": 5}}),
+                 adef.mk_register("Rrep", 320, 8, fs(), repeat={"count": 3, "stride": 2}),
+                 adef.mk_ref("Rrr", "Rrep", {"kind": "register", "address": 420, "repeat": {"count": 2, "stride": -5}})]
         objs += [tgt, adef.mk_block("Hosta", [adef.mk_ref("Alias", "Tgt", {"kind": "block"})], address_offset=3000),
                  adef.mk_block("Hostb", [adef.mk_ref("Aliasrep", "Tgt", {"kind": "block", "repeat": {"count": 2, "stride": 100}})],
                                address_offset=5000)]
